@@ -16,13 +16,16 @@ META = {
  "property": "C03",
  "harnesses": {
   "h_gfa1_lcp": {"kind": "G", "functions": _FUNCS,
-    "bounds": "GFA1 document S,S,L,C,P (5 lines): all 120 arrival orders x 4 link orientation pairs x path written along the link or along its complement",
+    "bounds": "GFA1 document S,S,L,C,P (5 lines): all 120 arrival orders x 4 link orientation pairs x path written along the link or along its complement x link overlap '*' or an asymmetric CIGAR (path overlaps unspecified)",
+    "timeout": {"quick": 240, "thorough": 600}, "parts": {"quick": 12, "thorough": 12}},
+  "h_gfa1_two_paths": {"kind": "G", "functions": _FUNCS,
+    "bounds": "GFA1 document S,S,L,P,P (5 lines), the two paths walking the one link in opposite directions (so that they share its placeholder with opposite orientations when they arrive first): all 120 arrival orders x 4 link orientation pairs x link written as the first path asks or as its complement x overlaps '*' or explicit CIGARs",
     "timeout": {"quick": 240, "thorough": 600}, "parts": {"quick": 12, "thorough": 12}},
   "h_gfa1_circular": {"kind": "G", "functions": _FUNCS, "tiers": ["thorough"],
     "bounds": "GFA1 document S,S,S,L,L,L,P(circular) (7 lines): all 5040 arrival orders x orientation bit",
     "timeout": {"quick": 240, "thorough": 1500}, "parts": {"quick": 16, "thorough": 16}},
   "h_gfa2_groups": {"kind": "G", "functions": _FUNCS,
-    "bounds": "GFA2 document S,S,E,O,U (5 lines) quick / S,S,E,G,F,O,U (7 lines) thorough: all arrival orders x 2 orientations x E interval kind (dovetail/containment/internal)",
+    "bounds": "GFA2 document S,S,E,O,U (5 lines) quick / S,S,E,G,F,O,U (7 lines) thorough: all arrival orders x 2 orientations x E interval kind (dovetail/containment/internal), plus the document S,S,G,O,U whose groups list the gap",
     "timeout": {"quick": 240, "thorough": 1500}, "parts": {"quick": 12, "thorough": 16}},
   "h_gfa2_nested": {"kind": "G", "functions": _FUNCS,
     "bounds": "GFA2 document S,S,E,O(o1),O(o2 -> o1-),U(u1 -> o2,u2),U(u2 -> s1) restricted to 5 (quick: S,E,O,O,U) / 7 lines: all arrival orders",
@@ -56,7 +59,7 @@ def _perm_check(doc, code, tag):
     if nbhd.check(g): return False
   return True
 
-def h_gfa1_lcp(code: int, p1: bool, p2: bool, along: bool) -> bool:
+def h_gfa1_lcp(code: int, p1: bool, p2: bool, along: bool, cig: bool) -> bool:
   """
   pre: 0 <= code < 120
   pre: code % NPART == PART
@@ -66,9 +69,26 @@ def h_gfa1_lcp(code: int, p1: bool, p2: bool, along: bool) -> bool:
   o1 = "+" if p1 else "-"
   o2 = "+" if p2 else "-"
   path = ("s1" + o1 + ",s2" + o2) if along else ("s2" + INV[o2] + ",s1" + INV[o1])
-  doc = ["S\ts1\t*", "S\ts2\t*", "L\ts1\t" + o1 + "\ts2\t" + o2 + "\t*",
+  # (cig: the link carries an asymmetric CIGAR while the path leaves its overlaps unspecified)
+  doc = ["S\ts1\t*", "S\ts2\t*", "L\ts1\t" + o1 + "\ts2\t" + o2 + "\t" + ("1M1D2M" if cig else "*"),
          "C\ts1\t+\ts2\t" + o2 + "\t0\t*", "P\tp1\t" + path + "\t*"]
   return _perm_check(doc, code, "lcp")
+
+def h_gfa1_two_paths(code: int, p1: bool, p2: bool, along: bool, cig: bool) -> bool:
+  """
+  pre: 0 <= code < 120
+  pre: code % NPART == PART
+  post: _ == True
+  """
+  vp.enter("two")
+  o1 = "+" if p1 else "-"
+  o2 = "+" if p2 else "-"
+  fwd, bwd = "s1" + o1 + ",s2" + o2, "s2" + INV[o2] + ",s1" + INV[o1]
+  link = ("L\ts1\t" + o1 + "\ts2\t" + o2 + "\t" + ("1D3M" if cig else "*")) if along else \
+         ("L\ts2\t" + INV[o2] + "\ts1\t" + INV[o1] + "\t" + ("3M1I" if cig else "*"))
+  doc = ["S\ts1\t*", "S\ts2\t*", link, "P\tp1\t" + fwd + "\t" + ("1D3M" if cig else "*"),
+         "P\tq1\t" + bwd + "\t" + ("3M1I" if cig else "*")]
+  return _perm_check(doc, code, "two")
 
 def h_gfa1_circular(code: int, p1: bool) -> bool:
   """
@@ -91,18 +111,25 @@ def h_gfa2_groups(code: int, p1: bool, k: int) -> bool:
   """
   pre: 0 <= code < NQ
   pre: code % NPART == PART
-  pre: 0 <= k < 3
+  pre: 0 <= k < 4
   post: _ == True
   """
   vp.enter("g2")
   o = "+" if p1 else "-"
-  b1, e1, b2, e2 = vp.pick(EKIND, k)
+  kk = vp.concretize(k, 0, 3)
+  if kk == 3:
+    # a gap listed by an ordered and an unordered group (gfapy accepts gaps as group items)
+    doc = ["S\ts1\t10\t*", "S\ts2\t10\t*", "G\tg1\ts1+\ts2" + o + "\t5\t*", "O\to1\ts1+ g1+ s2" + o, "U\tu1\tg1 o1"]
+    if not vp.QUICK:
+      doc = doc[:3] + ["E\te1\ts1+\ts2" + o + "\t5\t10$\t0\t5\t*", "F\ts2\tr1" + o + "\t0\t5\t0\t5\t*"] + doc[3:]
+    return _perm_check(doc, code, "g2")
+  b1, e1, b2, e2 = EKIND[kk]
   doc = ["S\ts1\t10\t*", "S\ts2\t10\t*", "E\te1\ts1+\ts2" + o + "\t" + b1 + "\t" + e1 + "\t" + b2 + "\t" + e2 + "\t*",
          "O\to1\ts1+ s2" + o, "U\tu1\ts1 e1 o1"]
   if not vp.QUICK:
     doc = doc[:3] + ["G\tg1\ts1-\ts2" + o + "\t5\t*", "F\ts2\tr1" + o + "\t0\t5\t0\t5\t*"] + doc[3:]
     doc[-1] = "U\tu1\ts1 e1 o1 g1"
-  if k != 0:
+  if kk != 0:
     doc = [d if not d.startswith("O\t") else "O\to1\ts1+ e1+" for d in doc]
   return _perm_check(doc, code, "g2")
 
